@@ -161,6 +161,13 @@ pub fn c08(ctx: &mut Ctx) {
         n,
         c08_case,
     );
+    ctx.run_cases(
+        "eof-value-flows",
+        "OSAKA: generated valid EOF containers moving value (EXTCALL with value to EOF / legacy / empty / precompile targets, EOFCREATE endowments incl. ones above the balance, create transactions with EOF initcode); oracle: sum(post) + basefee*gas_used == sum(pre); non-trivial = an EXT*CALL or EOFCREATE was executed",
+        crate::eofcheck::built_strategy,
+        ctx.tier.pick(30_000, 600_000),
+        crate::eofcheck::c08_eof_case,
+    );
     ctx.expect_labels("conservation", &["failed-value-call", "failed-create-with-endowment", "selfdestruct-cancun+", "selfdestruct-pre-cancun", "burn>0", "supply>2^256"]);
     ctx.assumptions.push("also counts as an allowed burn: ether sent to an account after it self-destructed in the same transaction (deleted at the end by the specification itself)".into());
     ctx.assumptions.push("beneficiary-reward disabled configurations are checked in C22".into());
@@ -535,6 +542,13 @@ pub fn c28(ctx: &mut Ctx) {
         || world_case(&cfg),
         n,
         c28_case,
+    );
+    ctx.run_cases(
+        "observers-eof",
+        "OSAKA: generated valid EOF containers (EXT*CALL, EOFCREATE incl. early-rejected ones, RETURNCONTRACT, create transactions with EOF initcode) executed without inspector, with the recording inspector and with GasInspector: identical ExecutionResult and identical balances / nonces / storage of the output state; non-trivial = an EXT*CALL or EOFCREATE was executed",
+        crate::eofcheck::built_strategy,
+        ctx.tier.pick(20_000, 400_000),
+        crate::eofcheck::c28_eof_case,
     );
 }
 
